@@ -1,0 +1,12 @@
+//go:build verif
+// +build verif
+
+package explore
+
+import "time"
+
+// VerifSetRetryInterval lets the verification harness shorten the delay
+// between a failed probe and its retry (5s in production).
+func (e *Explore) VerifSetRetryInterval(d time.Duration) {
+	e.retryInterval = d
+}
